@@ -19,6 +19,7 @@ type c01Kind struct {
 	Optional bool
 	Default  []string
 	Base     string
+	Initial  interface{}
 }
 
 var c01Kinds = []c01Kind{
@@ -51,6 +52,9 @@ var c01Kinds = []c01Kind{
 	{T: decl.TOnOffs, Vals: []string{"on", "off"}}, // a slice of a bool-kinded Unmarshaler: every element takes an argument
 	{T: decl.TInt, Base: "0", Vals: []string{"0644", "0x1F", "12"}}, // base inferred from the prefix
 	{T: decl.TFuncS, Vals: []string{"val"}, Default: []string{"dflt"}}, // a callback with a default: called with it only when the option does not occur
+	// fields that hold something before the parse: an occurrence replaces the previous contents, no occurrence leaves them
+	{T: decl.TMapSI, Vals: []string{"k:1", "j:-3"}, Initial: map[string]int{"stale": 99, "k": 7}},
+	{T: decl.TStrings, Vals: []string{"a"}, Initial: []string{"old", "older"}},
 }
 
 const (
@@ -84,6 +88,7 @@ func c01Build(kind c01Kind, placement int, delim string, short string, hf bool) 
 	}
 	u.Defaults = kind.Default
 	u.Base = kind.Base
+	u.Initial = kind.Initial
 	verbose := &decl.Opt{Field: "Verbose", Short: "v", Long: "verbose", Type: decl.TBools}
 	str := &decl.Opt{Field: "Str", Short: "s", Long: "str", Type: decl.TString}
 	top := &decl.Cmd{Name: "app", SubOptional: true, Opts: []*decl.Opt{verbose}}
@@ -234,7 +239,7 @@ func init() {
 				unitNames = append(unitNames, strings.Join(u, " "))
 			}
 		}
-		key := fmt.Sprintf("%s%s/%v/p%d/%s/%s/api=%v/hf=%v/late=%v", kind.T.Name, kind.Base, kind.Optional, ce.placement, ce.delim, short, api, hf, late)
+		key := fmt.Sprintf("%s%s%v/%v/p%d/%s/%s/api=%v/hf=%v/late=%v", kind.T.Name, kind.Base, kind.Initial != nil, kind.Optional, ce.placement, ce.delim, short, api, hf, late)
 		c.Describe(func() interface{} {
 			return map[string]interface{}{"option_type": kind.T.Name, "optional": kind.Optional, "placement": ce.placement, "delimiter": ce.delim,
 				"short": short, "api_path": api, "group_added_after_commands_and_two_parses": late, "help_flag+pass_double_dash": hf, "argv": argv, "tag_of_U": cd.u.Tag()}
@@ -293,7 +298,7 @@ func init() {
 		Level:      "model_checking",
 		ShardDepth: 2,
 		Body:       body,
-		Rule: "option under test U of 29 kinds (a slice of a bool-kinded Unmarshaler, an int with base 0, an Unmarshaler with a value receiver, a func(string) with a default tag, bool, []bool, string, int, uint8, float64, float32, Duration, *string, *int, []string, []int, []*int, map[string]string, map[string]int, " +
+		Rule: "option under test U of 31 kinds (a map[string]int and a []string whose fields hold entries before the parse, a slice of a bool-kinded Unmarshaler, an int with base 0, an Unmarshaler with a value receiver, a func(string) with a default tag, bool, []bool, string, int, uint8, float64, float32, Duration, *string, *int, []string, []int, []*int, map[string]string, map[string]int, " +
 			"func(), func(string), func(int) error, Unmarshaler, *Unmarshaler, []Unmarshaler, a bool-kinded Unmarshaler, a slice-kinded Unmarshaler, optional-argument string/int) x 11 placements (parser, subgroup, namespaced, doubly namespaced, command, " +
 			"command's namespaced group, sub-subcommand, shadowing an ancestor's option at two depths, shadowing through an identical namespaced long name, plain group nested in a namespaced group) x namespace delimiter {., ::} x short name {u, é} x {struct tags, AddGroup/AddCommand API, API with the parser's groups added after the commands and after two parses that selected them} " +
 			"x {None, HelpFlag|PassDoubleDash (on three of the placements)}; every sequence of <= 3 (quick) / <= 4 (thorough) units over all spellings of U with 1-3 values and with the empty attached value (--name= or -u=), bystander options, command words and a plain word, plus beyond that bound every unit repeated 5, 8, 9, 10, 16, 17 and 33 times; " +
